@@ -22,27 +22,27 @@ vars == <<heap, reg, out, hist>>
 \* ---- the machine ---------------------------------------------------------------------------------
 Live == {r \in Regs : reg[r] # 0}
 T(r) == heap[reg[r]]
-OutOf(res) == IF res.ok THEN OutOk ELSE OutExc(res.err)
+XOutOf(res) == IF res.ok THEN XOutOk ELSE XOutExc(res.err)
 Alloc(rd, res, h) ==
     /\ hist' = Append(hist, h)
-    /\ out' = OutOf(res)
+    /\ out' = XOutOf(res)
     /\ IF res.ok THEN heap' = Append(heap, res.t) /\ reg' = [reg EXCEPT ![rd] = Len(heap) + 1]
        ELSE UNCHANGED <<heap, reg>>
 \* res.t is the target afterwards also when the call was rejected half way (UpdateT keeps the earlier assignments)
 InPlace(r, res, h) ==
     /\ hist' = Append(hist, h)
-    /\ out' = OutOf(res)
+    /\ out' = XOutOf(res)
     /\ heap' = [heap EXCEPT ![reg[r]] = res.t]
     /\ UNCHANGED reg
 Read(q, h) ==
     /\ hist' = Append(hist, h)
-    /\ out' = IF q.ok THEN OutVal(q.v) ELSE OutExc(q.err)
+    /\ out' = IF q.ok THEN XOutVal(q.v) ELSE XOutExc(q.err)
     /\ UNCHANGED <<heap, reg>>
 
 \* ---- menus -----------------------------------------------------------------------------------------
-F(kind, args) == [kind |-> kind, args |-> args]
-G(kind, extras) == [kind |-> kind, extras |-> extras]
-VZ == VInt(0)
+XF(kind, args) == [kind |-> kind, args |-> args]
+XG(kind, extras) == [kind |-> kind, extras |-> extras]
+XVZ == VInt(0)
 XSeeds == <<
     [kind |-> "cols", how |-> "dict", cols |-> <<"a", "b">>, args |-> <<<<"l", <<V1, None>>>>, <<"l", <<VX, None>>>>>>],
     [kind |-> "recs", recs |-> <<<<<<"b", V1>>, <<"a", V2>>>>, <<<<"a", None>>, <<"b", VX>>>>>>],             \* same keys: sorted
@@ -62,40 +62,40 @@ XSeeds == <<
 >>
 GetMenu     == <<<<"a", None>>, <<"q", None>>, <<"zz", V2>>>>
 GetAttrMenu == <<<<"a", <<>>>>, <<"zz", <<>>>>, <<"zz", <<V2>>>>, <<"q", <<None>>>>>>
-TupleMenu   == <<<<<<"c", "a">>, <<"c", "b">>>>, <<<<"c", "a">>, <<"c", "zz">>>>, <<<<"c", "a">>, <<"f", F("tuple", <<"b">>)>>>>,
-                 <<<<"f", F("ident", <<"zz">>)>>, <<"c", "zz">>>>, <<<<"c", "x">>>>>>
-ApplyMenu   == <<[fn |-> F("tuple", <<"a", "b">>), defs |-> <<>>], [fn |-> F("tuple", <<"a", "w">>), defs |-> <<<<"w", V2>>>>],
-                 [fn |-> F("tuple", <<"a", "b">>), defs |-> <<<<"b", V2>>>>], [fn |-> F("ident", <<"key">>), defs |-> <<>>],
-                 [fn |-> F("const", <<>>), defs |-> <<>>]>>
-IfElseMenu  == <<[cond |-> <<"c", "a">>, a |-> <<"c", "b">>, b |-> <<"f", F("tuple", <<"a">>)>>, defs |-> <<>>],
-                 [cond |-> <<"f", F("isnone", <<"a">>)>>, a |-> <<"c", "a">>, b |-> <<"c", "zz">>, defs |-> <<>>],
-                 [cond |-> <<"c", "a">>, a |-> <<"f", F("tuple", <<"a", "w">>)>>, b |-> <<"c", "b">>, defs |-> <<<<"w", V2>>>>],
+TupleMenu   == <<<<<<"c", "a">>, <<"c", "b">>>>, <<<<"c", "a">>, <<"c", "zz">>>>, <<<<"c", "a">>, <<"f", XF("tuple", <<"b">>)>>>>,
+                 <<<<"f", XF("ident", <<"zz">>)>>, <<"c", "zz">>>>, <<<<"c", "x">>>>>>
+ApplyMenu   == <<[fn |-> XF("tuple", <<"a", "b">>), defs |-> <<>>], [fn |-> XF("tuple", <<"a", "w">>), defs |-> <<<<"w", V2>>>>],
+                 [fn |-> XF("tuple", <<"a", "b">>), defs |-> <<<<"b", V2>>>>], [fn |-> XF("ident", <<"key">>), defs |-> <<>>],
+                 [fn |-> XF("const", <<>>), defs |-> <<>>]>>
+IfElseMenu  == <<[cond |-> <<"c", "a">>, a |-> <<"c", "b">>, b |-> <<"f", XF("tuple", <<"a">>)>>, defs |-> <<>>],
+                 [cond |-> <<"f", XF("isnone", <<"a">>)>>, a |-> <<"c", "a">>, b |-> <<"c", "zz">>, defs |-> <<>>],
+                 [cond |-> <<"c", "a">>, a |-> <<"f", XF("tuple", <<"a", "w">>)>>, b |-> <<"c", "b">>, defs |-> <<<<"w", V2>>>>],
                  [cond |-> <<"c", "zz">>, a |-> <<"c", "a">>, b |-> <<"c", "a">>, defs |-> <<>>]>>
-CallMenu    == <<<<<<"c", <<"f", F("tuple", <<"a", "b">>)>>>>>>,
-                 <<<<"e", <<"f", F("list", <<"c">>)>>>>, <<"c", <<"f", F("tuple", <<"a", "b">>)>>>>>>,       \* e needs c: c first whatever the keyword order
-                 <<<<"a", <<"f", F("tuple", <<"a">>)>>>>, <<"c", <<"f", F("ident", <<"b">>)>>>>>>,             \* a reads itself, c is independent
-                 <<<<"a", <<"f", F("tuple", <<"a">>)>>>>, <<"b", <<"f", F("tuple", <<"b">>)>>>>>>,             \* two self-readers: refused
-                 <<<<"e", <<"f", F("list", <<"c">>)>>>>, <<"c", <<"s", V2>>>>>>,                               \* a function reads a constant of the same call
+CallMenu    == <<<<<<"c", <<"f", XF("tuple", <<"a", "b">>)>>>>>>,
+                 <<<<"e", <<"f", XF("list", <<"c">>)>>>>, <<"c", <<"f", XF("tuple", <<"a", "b">>)>>>>>>,       \* e needs c: c first whatever the keyword order
+                 <<<<"a", <<"f", XF("tuple", <<"a">>)>>>>, <<"c", <<"f", XF("ident", <<"b">>)>>>>>>,             \* a reads itself, c is independent
+                 <<<<"a", <<"f", XF("tuple", <<"a">>)>>>>, <<"b", <<"f", XF("tuple", <<"b">>)>>>>>>,             \* two self-readers: refused
+                 <<<<"e", <<"f", XF("list", <<"c">>)>>>>, <<"c", <<"s", V2>>>>>>,                               \* a function reads a constant of the same call
                  <<<<"c", <<"l", <<V1, V2>>>>>>>>,
-                 <<<<"c", <<"f", F("ident", <<"key">>)>>>>>>,                                                \* the hidden default key = 'c'
-                 <<<<"c", <<"f", F("ident", <<"zz">>)>>>>>>,                                                 \* TypeError
-                 <<<<"c", <<"f", F("ident", <<"e">>)>>>>, <<"e", <<"f", F("ident", <<"c">>)>>>>>>,            \* a cycle
-                 <<<<"z", <<"f", F("tuple", <<"x", "z">>)>>>>, <<"y", <<"s", VStr("q")>>>>>> >>
+                 <<<<"c", <<"f", XF("ident", <<"key">>)>>>>>>,                                                \* the hidden default key = 'c'
+                 <<<<"c", <<"f", XF("ident", <<"zz">>)>>>>>>,                                                 \* TypeError
+                 <<<<"c", <<"f", XF("ident", <<"e">>)>>>>, <<"e", <<"f", XF("ident", <<"c">>)>>>>>>,            \* a cycle
+                 <<<<"z", <<"f", XF("tuple", <<"x", "z">>)>>>>, <<"y", <<"s", VStr("q")>>>>>> >>
 IfNoneMenu  == <<[none |-> <<"none">>, kws |-> <<<<"a", <<"s", V2>>>>>>],
-                 [none |-> <<"none">>, kws |-> <<<<"a", <<"f", F("tuple", <<"key", "b">>)>>>>>>],
+                 [none |-> <<"none">>, kws |-> <<<<"a", <<"f", XF("tuple", <<"key", "b">>)>>>>>>],
                  [none |-> <<"none">>, kws |-> <<<<"a", <<"s", V2>>>>, <<"c", <<"s", VX>>>>>>],               \* fills a in the operand, then goes on with a new table
                  [none |-> <<"none">>, kws |-> <<<<"c", <<"s", VX>>>>, <<"a", <<"s", V2>>>>>>],               \* new table first: the operand stays
-                 [none |-> <<"nan">>, kws |-> <<<<"a", <<"s", VZ>>>>, <<"b", <<"s", VZ>>>>>>],
+                 [none |-> <<"nan">>, kws |-> <<<<"a", <<"s", XVZ>>>>, <<"b", <<"s", XVZ>>>>>>],
                  [none |-> <<"vals", <<V1, VX>>>>, kws |-> <<<<"a", <<"s", None>>>>, <<"b", <<"s", None>>>>>>],
-                 [none |-> <<"isstr">>, kws |-> <<<<"b", <<"f", F("ident", <<"zz">>)>>>>>>],                  \* TypeError only if some b is a string
-                 [none |-> <<"none">>, kws |-> <<<<"z", <<"f", F("ident", <<"x">>)>>>>>>],
+                 [none |-> <<"isstr">>, kws |-> <<<<"b", <<"f", XF("ident", <<"zz">>)>>>>>>],                  \* TypeError only if some b is a string
+                 [none |-> <<"none">>, kws |-> <<<<"z", <<"f", XF("ident", <<"x">>)>>>>>>],
                  [none |-> <<"none">>, kws |-> <<>>]>>
-DoMenu      == <<[fs |-> <<G("tuple", <<"a">>)>>, cs |-> <<"a", "b">>, star |-> TRUE],                         \* b's step sees the new a
-                 [fs |-> <<G("tuple", <<>>), G("list", <<>>)>>, cs |-> <<"a">>, star |-> TRUE],
-                 [fs |-> <<G("zero", <<>>)>>, cs |-> <<>>, star |-> FALSE],                                    \* d.do(f, []): nothing
-                 [fs |-> <<G("tuple", <<"b">>)>>, cs |-> <<>>, star |-> TRUE],                                 \* all columns
-                 [fs |-> <<G("zero", <<>>)>>, cs |-> <<"x", "z">>, star |-> FALSE],
-                 [fs |-> <<G("tuple", <<"zz">>)>>, cs |-> <<"a">>, star |-> TRUE]>>
+DoMenu      == <<[fs |-> <<XG("tuple", <<"a">>)>>, cs |-> <<"a", "b">>, star |-> TRUE],                         \* b's step sees the new a
+                 [fs |-> <<XG("tuple", <<>>), XG("list", <<>>)>>, cs |-> <<"a">>, star |-> TRUE],
+                 [fs |-> <<XG("zero", <<>>)>>, cs |-> <<>>, star |-> FALSE],                                    \* d.do(f, []): nothing
+                 [fs |-> <<XG("tuple", <<"b">>)>>, cs |-> <<>>, star |-> TRUE],                                 \* all columns
+                 [fs |-> <<XG("zero", <<>>)>>, cs |-> <<"x", "z">>, star |-> FALSE],
+                 [fs |-> <<XG("tuple", <<"zz">>)>>, cs |-> <<"a">>, star |-> TRUE]>>
 RelabelMenu == <<[kind |-> "map", how |-> "kw", pairs |-> <<<<"a", "b">>>>],                                   \* onto an existing column
                  [kind |-> "map", how |-> "dict", pairs |-> <<<<"b", "a">>>>],
                  [kind |-> "map", how |-> "kw", pairs |-> <<<<"a", "d">>, <<"zz", "y">>>>],
@@ -109,7 +109,7 @@ UnpivotMenu == <<[xs |-> <<"x">>, y |-> "y", z |-> "z", ysel |-> <<>>], [xs |-> 
                  [xs |-> <<"zz">>, y |-> "y", z |-> "z", ysel |-> <<>>], [xs |-> <<"a">>, y |-> "a", z |-> "z", ysel |-> <<>>],
                  [xs |-> <<"a">>, y |-> "y", z |-> "z", ysel |-> <<"zz">>]>>
 XyzMenu     == <<[xs |-> <<"x">>, y |-> "y", z |-> <<"c", "z">>, agg |-> "none"],
-                 [xs |-> <<"x">>, y |-> "y", z |-> <<"f", F("tuple", <<"x", "z">>)>>, agg |-> "last"],
+                 [xs |-> <<"x">>, y |-> "y", z |-> <<"f", XF("tuple", <<"x", "z">>)>>, agg |-> "last"],
                  [xs |-> <<"x">>, y |-> "y", z |-> <<"c", "zz">>, agg |-> "len"],
                  [xs |-> <<"x">>, y |-> "y", z |-> <<"c", "z">>, agg |-> "len"],
                  [xs |-> <<"x">>, y |-> "y", z |-> <<"c", "z">>, agg |-> "first"]>>
@@ -123,38 +123,38 @@ SetMenu     == <<<<"a", <<"s", V2>>>>, <<"c", <<"l", <<V1, None>>>>>>, <<"y", <<
 NewX    == \E rd \in {"r1", "r2"} : \E k \in DOMAIN XSeeds :
                Alloc(rd, XConstruct(XSeeds[k]), [op |-> "NewX", rd |-> rd, seed |-> XSeeds[k]])
 Extend  == \E r \in Live : \E k \in DOMAIN ExtendMenu :
-               Alloc(NextReg(r), ExtendT(T(r), ExtendMenu[k]), [op |-> "Extend", r |-> r, rd |-> NextReg(r), extra |-> ExtendMenu[k]])
+               Alloc(NextReg(r), XExtendT(T(r), ExtendMenu[k]), [op |-> "Extend", r |-> r, rd |-> NextReg(r), extra |-> ExtendMenu[k]])
 Get     == \E r \in Live : \E k \in DOMAIN GetMenu :
-               Read(GetT(T(r), GetMenu[k][1], GetMenu[k][2]), [op |-> "Get", r |-> r, c |-> GetMenu[k][1], dflt |-> GetMenu[k][2]])
+               Read(XGetT(T(r), GetMenu[k][1], GetMenu[k][2]), [op |-> "Get", r |-> r, c |-> GetMenu[k][1], dflt |-> GetMenu[k][2]])
 GetAttr == \E r \in Live : \E k \in DOMAIN GetAttrMenu :
-               Read(GetAttrT(T(r), GetAttrMenu[k][1], GetAttrMenu[k][2]), [op |-> "GetAttr", r |-> r, c |-> GetAttrMenu[k][1], dflt |-> GetAttrMenu[k][2]])
+               Read(XGetAttrT(T(r), GetAttrMenu[k][1], GetAttrMenu[k][2]), [op |-> "GetAttr", r |-> r, c |-> GetAttrMenu[k][1], dflt |-> GetAttrMenu[k][2]])
 TupleGet == \E r \in Live : \E k \in DOMAIN TupleMenu :
-               Read(TupleGetT(T(r), TupleMenu[k]), [op |-> "TupleGet", r |-> r, items |-> TupleMenu[k]])
+               Read(XTupleGetT(T(r), TupleMenu[k]), [op |-> "TupleGet", r |-> r, items |-> TupleMenu[k]])
 Apply   == \E r \in Live : \E k \in DOMAIN ApplyMenu :
-               Read(ApplyT(T(r), ApplyMenu[k].fn, ApplyMenu[k].defs), [op |-> "Apply", r |-> r, fn |-> ApplyMenu[k].fn, defs |-> ApplyMenu[k].defs])
+               Read(XApplyT(T(r), ApplyMenu[k].fn, ApplyMenu[k].defs), [op |-> "Apply", r |-> r, fn |-> ApplyMenu[k].fn, defs |-> ApplyMenu[k].defs])
 IfElse  == \E r \in Live : \E k \in DOMAIN IfElseMenu : LET m == IfElseMenu[k] IN
-               Read(IfElseT(T(r), m.cond, m.a, m.b, m.defs), [op |-> "IfElse", r |-> r, cond |-> m.cond, a |-> m.a, b |-> m.b, defs |-> m.defs])
-Repr    == \E r \in Live : Read(ReprT(T(r)), [op |-> "Repr", r |-> r])
-DictConcat == \E k \in DOMAIN ConcatMenu : Read(QOk(DictConcatV(ConcatMenu[k])), [op |-> "DictConcat", recs |-> ConcatMenu[k]])
-DictConcatRows == \E r \in Live : Read(QOk(DictConcatRowsV(T(r))), [op |-> "DictConcatRows", r |-> r])
+               Read(XIfElseT(T(r), m.cond, m.a, m.b, m.defs), [op |-> "IfElse", r |-> r, cond |-> m.cond, a |-> m.a, b |-> m.b, defs |-> m.defs])
+Repr    == \E r \in Live : Read(XReprT(T(r)), [op |-> "Repr", r |-> r])
+DictConcat == \E k \in DOMAIN ConcatMenu : Read(XQOk(XDictConcatV(ConcatMenu[k])), [op |-> "DictConcat", recs |-> ConcatMenu[k]])
+DictConcatRows == \E r \in Live : Read(XQOk(XDictConcatRowsV(T(r))), [op |-> "DictConcatRows", r |-> r])
 Call    == \E r \in Live : \E k \in DOMAIN CallMenu :
-               Alloc(NextReg(r), CallT(T(r), CallMenu[k]), [op |-> "Call", r |-> r, rd |-> NextReg(r), kws |-> CallMenu[k]])
+               Alloc(NextReg(r), XCallT(T(r), CallMenu[k]), [op |-> "Call", r |-> r, rd |-> NextReg(r), kws |-> CallMenu[k]])
 DoX     == \E r \in Live : \E k \in DOMAIN DoMenu : LET m == DoMenu[k] IN
                /\ Range(m.cs) \subseteq ColSet(T(r))
-               /\ Alloc(NextReg(r), DoXT(T(r), m.fs, m.cs, m.star), [op |-> "DoX", r |-> r, rd |-> NextReg(r), fs |-> m.fs, cs |-> m.cs, star |-> m.star])
+               /\ Alloc(NextReg(r), XDoXT(T(r), m.fs, m.cs, m.star), [op |-> "DoX", r |-> r, rd |-> NextReg(r), fs |-> m.fs, cs |-> m.cs, star |-> m.star])
 Relabel == \E r \in Live : \E k \in DOMAIN RelabelMenu :
-               Alloc(NextReg(r), RelabelT(T(r), RelabelMenu[k]), [op |-> "Relabel", r |-> r, rd |-> NextReg(r), form |-> RelabelMenu[k]])
+               Alloc(NextReg(r), XRelabelT(T(r), RelabelMenu[k]), [op |-> "Relabel", r |-> r, rd |-> NextReg(r), form |-> RelabelMenu[k]])
 Unpivot == \E r \in Live : \E k \in DOMAIN UnpivotMenu : LET m == UnpivotMenu[k] IN
-               Alloc(NextReg(r), UnpivotT(T(r), m.xs, m.y, m.z, m.ysel), [op |-> "Unpivot", r |-> r, rd |-> NextReg(r), xs |-> m.xs, y |-> m.y, z |-> m.z, ysel |-> m.ysel])
+               Alloc(NextReg(r), XUnpivotT(T(r), m.xs, m.y, m.z, m.ysel), [op |-> "Unpivot", r |-> r, rd |-> NextReg(r), xs |-> m.xs, y |-> m.y, z |-> m.z, ysel |-> m.ysel])
 Xyz     == \E r \in Live : \E k \in DOMAIN XyzMenu : LET m == XyzMenu[k] IN
                /\ XyzDomain(T(r), m.xs, m.y)
                /\ Alloc(NextReg(r), XyzT(T(r), m.xs, m.y, m.z, m.agg), [op |-> "Xyz", r |-> r, rd |-> NextReg(r), xs |-> m.xs, y |-> m.y, z |-> m.z, agg |-> m.agg])
 UpdateFrom == \E r \in Live, r2 \in Live :
-               InPlace(r, UpdateFromT(T(r), T(r2)), [op |-> "UpdateFrom", r |-> r, r2 |-> r2])
+               InPlace(r, XUpdateFromT(T(r), T(r2)), [op |-> "UpdateFrom", r |-> r, r2 |-> r2])
 IfNone  == \E r \in Live : \E k \in DOMAIN IfNoneMenu :
-               LET m == IfNoneMenu[k]   res == IfNoneT(T(r), m.none, m.kws)   rd == NextReg(r) IN
+               LET m == IfNoneMenu[k]   res == XIfNoneT(T(r), m.none, m.kws)   rd == NextReg(r) IN
                /\ hist' = Append(hist, [op |-> "IfNone", r |-> r, rd |-> rd, none |-> m.none, kws |-> m.kws])
-               /\ out' = IF res.err = "ok" THEN OutOk ELSE OutExc(res.err)
+               /\ out' = IF res.err = "ok" THEN XOutOk ELSE XOutExc(res.err)
                /\ IF res.err # "ok" THEN heap' = [heap EXCEPT ![reg[r]] = res.self] /\ reg' = reg
                   ELSE IF res.alias THEN heap' = [heap EXCEPT ![reg[r]] = res.self] /\ reg' = [reg EXCEPT ![rd] = reg[r]]
                   ELSE heap' = Append([heap EXCEPT ![reg[r]] = res.self], res.res) /\ reg' = [reg EXCEPT ![rd] = Len(heap) + 1]
@@ -166,7 +166,7 @@ DelCol  == \E r \in Live, c \in {"a", "y"} :
                InPlace(r, IF res.ok THEN res ELSE [ok |-> FALSE, t |-> T(r), err |-> res.err], [op |-> "DelCol", r |-> r, c |-> c])
 Copy    == \E r \in Live : Alloc(NextReg(r), Ok(T(r)), [op |-> "Copy", r |-> r, rd |-> NextReg(r)])
 
-Init == heap = <<>> /\ reg = [r \in Regs |-> 0] /\ out = OutOk /\ hist = <<>>
+Init == heap = <<>> /\ reg = [r \in Regs |-> 0] /\ out = XOutOk /\ hist = <<>>
 Next == NewX \/ Extend \/ Get \/ GetAttr \/ TupleGet \/ Apply \/ IfElse \/ Repr \/ DictConcat \/ DictConcatRows
         \/ Call \/ DoX \/ Relabel \/ Unpivot \/ Xyz \/ UpdateFrom \/ IfNone \/ SetCol \/ DelCol \/ Copy
 \* the model-checking configurations stop at MaxDepth calls (the generators use Next and cut with a CONSTRAINT)
@@ -179,7 +179,7 @@ ExcClasses == {"ValueError", "KeyError", "IndexError", "TypeError", "AttributeEr
 TypeOK == /\ \A r \in Regs : reg[r] \in 0..Len(heap)
           /\ out[1] \in {"ok", "exc", "val"}
           /\ out[1] = "exc" => out[2] \in ExcClasses
-          /\ out[1] = "ok" => out = OutOk
+          /\ out[1] = "ok" => out = XOutOk
 AllRectangular == \A o \in 1..Len(heap) : /\ Rectangular(heap[o])
                                           /\ heap[o].cols = <<>> => heap[o].rows = <<>>
                                           /\ Cardinality(Range(heap[o].cols)) = Len(heap[o].cols)
@@ -190,29 +190,29 @@ InPlaces  == {"UpdateFrom", "IfNone", "SetCol", "DelCol"}
 OnlyTargetChanges == [][\A o \in 1..Len(heap) : heap'[o] # heap[o] => Last(hist').op \in InPlaces /\ o = reg[Last(hist').r]]_vars
 \* reads change nothing at all; allocating calls leave every register but their destination alone
 ReadsChangeNothing == [][Last(hist').op \in ReadOps => heap' = heap /\ reg' = reg]_vars
-OthersKeepTheirObject == [][\A r \in Regs : reg'[r] # reg[r] => (r = Last(hist').rd /\ out' = OutOk)]_vars
+OthersKeepTheirObject == [][\A r \in Regs : reg'[r] # reg[r] => (r = Last(hist').rd /\ out' = XOutOk)]_vars
 \* a rejected call leaves the state alone, except the two that work column by column in place
 RejectedLeavesState == [][(out'[1] = "exc" /\ Last(hist').op \notin {"UpdateFrom", "IfNone"}) => (heap' = heap /\ reg' = reg)]_vars
 \* objects are never dropped, a call allocates at most one
 HeapGrowsByAtMostOne == [][Len(heap') \in {Len(heap), Len(heap) + 1} /\ (Len(heap') > Len(heap) => reg'[Last(hist').rd] = Len(heap'))]_vars
 \* if_none returns its operand exactly when every named column exists (and then nothing is allocated)
-IfNoneAlias == [][(Last(hist').op = "IfNone" /\ out' = OutOk) =>
+IfNoneAlias == [][(Last(hist').op = "IfNone" /\ out' = XOutOk) =>
                      LET h == Last(hist') IN
-                     (reg'[h.rd] = reg[h.r]) <=> (Names(h.kws) \subseteq ColSet(heap[reg[h.r]]))]_vars
+                     (reg'[h.rd] = reg[h.r]) <=> (XNames(h.kws) \subseteq ColSet(heap[reg[h.r]]))]_vars
 \* laws over the live tables
 Shallow == Len(hist) <= LawDepth
 CallMatchesLaw == Shallow => \A r \in Live : \A k \in DOMAIN CallMenu :
-                     LET law == CallLaw(T(r), CallMenu[k]) IN
-                     /\ CallT(T(r), CallMenu[k]) \in law
+                     LET law == XCallLaw(T(r), CallMenu[k]) IN
+                     /\ XCallT(T(r), CallMenu[k]) \in law
                      /\ (\E x \in law : x.ok) => Cardinality(law) = 1                 \* CallConfluent
-ReadLengths == Shallow => \A r \in Live : /\ \A k \in DOMAIN GetMenu : Len(Pay(GetT(T(r), GetMenu[k][1], GetMenu[k][2]).v)) = NR(T(r))
-                               /\ \A k \in DOMAIN ApplyMenu : LET q == ApplyT(T(r), ApplyMenu[k].fn, ApplyMenu[k].defs) IN q.ok => Len(Pay(q.v)) = NR(T(r))
+ReadLengths == Shallow => \A r \in Live : /\ \A k \in DOMAIN GetMenu : Len(Pay(XGetT(T(r), GetMenu[k][1], GetMenu[k][2]).v)) = NR(T(r))
+                               /\ \A k \in DOMAIN ApplyMenu : LET q == XApplyT(T(r), ApplyMenu[k].fn, ApplyMenu[k].defs) IN q.ok => Len(Pay(q.v)) = NR(T(r))
 RelabelKeepsRows == Shallow => \A r \in Live : \A k \in DOMAIN RelabelMenu :
-                     LET u == RelabelT(T(r), RelabelMenu[k]).t IN
+                     LET u == XRelabelT(T(r), RelabelMenu[k]).t IN
                      /\ NR(u) = NR(T(r))
                      /\ Len(u.cols) <= Len(T(r).cols)
                      /\ \A c \in ColSet(u) : \E c0 \in ColSet(T(r)) : \A i \in 1..NR(u) : u.rows[i][c] = T(r).rows[i][c0]
-UnpivotShape == Shallow => \A r \in Live : \A k \in DOMAIN UnpivotMenu : LET m == UnpivotMenu[k]  u == UnpivotT(T(r), m.xs, m.y, m.z, m.ysel) IN
+UnpivotShape == Shallow => \A r \in Live : \A k \in DOMAIN UnpivotMenu : LET m == UnpivotMenu[k]  u == XUnpivotT(T(r), m.xs, m.y, m.z, m.ysel) IN
                      u.ok => NR(u.t) = NR(T(r)) * (IF m.ysel = <<>> THEN Cardinality(ColSet(T(r)) \ Range(m.xs)) ELSE Len(m.ysel))
 \* pivoting and un-pivoting again gives back every (x, y, z) of a table whose (x, y) are unique
 PivotRoundTrip == Shallow => \A r \in Live :
@@ -220,7 +220,7 @@ PivotRoundTrip == Shallow => \A r \in Live :
                      (XyzDomain(t, <<"x">>, "y") /\ HasCol(t, "z") /\ Len(t.cols) = 3
                         /\ \A i, j \in 1..NR(t) : (t.rows[i].x = t.rows[j].x /\ t.rows[i].y = t.rows[j].y) => i = j)
                      => LET p == XyzT(t, <<"x">>, "y", <<"c", "z">>, "last").t
-                            u == UnpivotT(p, <<"x">>, "y", "z", <<>>).t IN
+                            u == XUnpivotT(p, <<"x">>, "y", "z", <<>>).t IN
                         \A i \in 1..NR(t) : \E j \in 1..NR(u) : u.rows[j] = t.rows[i]
 
 \* ---- what a state looks like from outside (the S2C expectation) -----------------------------------------------
